@@ -1460,6 +1460,47 @@ impl<RW: QueueRW<T>, T> Stream for &FutInnerRecv<RW, T> {""")]),
         false
     }
 }""")], note='try_send on a futures queue no longer wakes parked Stream tasks'),
+    V('fut-recv-notify-under-consumer-lock', 'C15', ['P7k'], [E(MQ, """        let rval = self.reader.try_recv();
+        self.prod_wait.notify_all();
+        rval
+    }
+""", """        let rval = self.reader.try_recv();
+        let consumers = self.wait.parked.lock();
+        self.prod_wait.notify_all();
+        drop(consumers);
+        rval
+    }
+""")], note='lock order inversion: producers are notified (producer list lock) under the consumer list lock, the sink does its last attempt (which notifies consumers) under the producer list lock'),
+    # ---- gaps found by the mechanical mutation sweep (tools/mutsweep.py): one-line changes no check and no test noticed
+    V('recv-retry-without-reload', 'C18', ['P3b'], [E(MQ, """                        RW::dec_ref(&ref_cell.refcnt);
+                        ctail_attempt = ctail_attempt.reload();
+                        continue;""", """                        RW::dec_ref(&ref_cell.refcnt);
+                        continue;""")], note='after a failed re-check the same stale attempt is retried for ever: try_recv never returns'),
+    V('park-reports-not-parked', 'C15', ['P7d'], [E(MQ, """        parked.push_back(current());
+        true
+    }""", """        parked.push_back(current());
+        false
+    }""")], note='the task is registered but fut_wait says retry: poll loops inside the call'),
+    V('notify-drains-without-notifying', 'C14', ['P7c'], [E(MQ, """                for val in parked.drain(..) {
+                    val.notify();
+                }
+            } else {""", """                for val in parked.drain(..) {
+                    drop(val);
+                }
+            } else {""")], note='more than eight parked tasks are taken out of the list and dropped without a wake-up'),
+    V('notify-small-list-not-drained', 'C14', ['P7c'], [E(MQ, """                inline_v.extend(parked.drain(..));
+                drop(parked);""", """                drop(parked);""")], note='up to eight parked tasks are never woken'),
+    V('teardown-loop-condition-flipped', 'C05', ['P13c'], [E(MQ, """            while last_read.load_count(Relaxed) != self.head.load_count(Relaxed) {""",
+                                                             """            while last_read.load_count(Relaxed) == self.head.load_count(Relaxed) {""")],
+      note='unconsumed values of a move-out queue are leaked at teardown'),
+    V('remove-reader-leaks-meta', 'C17', ['P10d'], [E(RC, """                        mem.free(reader.pos as *mut ReaderPos, 1);
+                        alloc::deallocate(reader.meta as *mut ReaderMeta, 1);""", """                        mem.free(reader.pos as *mut ReaderPos, 1);""")],
+      note='one consumer-counter block leaks per removed stream'),
+    V('add-stream-fail-leaks-list-buffer', 'C17', ['P10c'], [E(RC, """                        fence(Ordering::Acquire);
+                        ptr::read(new_group);
+                        alloc::deallocate(new_reader.meta as *mut ReaderMeta, 1);""", """                        fence(Ordering::Acquire);
+                        alloc::deallocate(new_reader.meta as *mut ReaderMeta, 1);""")],
+      note='a lost CAS deallocates the unpublished group without dropping its Vec: the list buffer leaks'),
 ]
 
 # behaviour-preserving patches written by independent sub-agents (tools/eval_refactors.sh, DESIGN 12.9): every check
